@@ -493,7 +493,19 @@ func (ex *Exec) doReturn(g *Goroutine, fr *Frame, res Value) {
 // goPanic terminates the path with a panic violation (Go run-time panic in the
 // code under test). recover() is not modelled: any panic is terminal.
 func (ex *Exec) goPanic(g *Goroutine, fr *Frame, msg string, pos token.Pos) {
+	if ex.replaying() {
+		// A child path re-executes its parent's decisions and must behave like
+		// it until the prefix is used up; a panic before that point means the
+		// re-execution diverged (nothing would report it otherwise).
+		ex.inconclusive(fmt.Sprintf("panic '%s' at %s while still replaying the decision prefix (pos %d of %d, trail %v): re-execution diverged from the parent path", msg, ex.where(fr, pos), ex.pos, len(ex.prefix), ex.trail))
+	}
+	nv, ni := len(ex.Violations), len(ex.Inconcl)
 	ex.report(&Violation{Kind: "panic", Msg: msg, Where: ex.where(fr, pos)})
+	if !ex.replaying() && len(ex.Violations) == nv && len(ex.Inconcl) == ni {
+		// the full path condition has no model: the path had become infeasible
+		// earlier (after a check whose failing side was the only feasible one)
+		panic(pathEnd{"infeasible"})
+	}
 	panic(pathEnd{"panic: " + msg})
 }
 
@@ -737,6 +749,19 @@ func (ex *Exec) allocSlice(elem types.Type, l64, c64 *Term) Slice {
 			return Slice{Arr: ex.newSym(elem, c64, symZero{}), Off: ex.i64(0), Len: l64, Cap: c64}
 		}
 		return Slice{Arr: ex.newDense(elem, int(k)), Off: ex.i64(0), Len: l64, Cap: c64}
+	}
+	if !scalarType(elem) {
+		// a functional array cannot hold pointers or aggregates (its cells are
+		// terms): the length is enumerated, one path per feasible value
+		k := ex.concretize(c64, "capacity of a slice of non-scalar elements")
+		ck := ex.i64(k)
+		if _, ok := constInt(l64); !ok {
+			l64 = ex.i64(ex.concretize(l64, "length of a slice of non-scalar elements"))
+		}
+		if k > ex.MaxDense {
+			panic(unsupported(fmt.Sprintf("slice of %d non-scalar elements", k)))
+		}
+		return Slice{Arr: ex.newDense(elem, int(k)), Off: ex.i64(0), Len: l64, Cap: ck}
 	}
 	return Slice{Arr: ex.newSym(elem, c64, symZero{}), Off: ex.i64(0), Len: l64, Cap: c64}
 }
